@@ -1002,10 +1002,11 @@ func (c *compiler) evalForExpression(node *ast.ForExpression) (interface{}, erro
 	ret := []interface{}{}
 	switch riter.Kind() {
 	case reflect.Map:
-		keys := riter.MapKeys()
-		for i := 0; i < len(keys); i++ {
-			k := keys[i]
-			v := riter.MapIndex(k)
+		// MapRange also reaches entries whose key can not be looked up again (NaN)
+		entries := riter.MapRange()
+		for entries.Next() {
+			k := entries.Key()
+			v := entries.Value()
 			c.ctx.Set(node.KeyName, k.Interface())
 			c.ctx.Set(node.ValueName, v.Interface())
 
